@@ -597,7 +597,8 @@ def _mult_structure(L, R):
     b, fb = L.b, L.fb
     roles = Roles(b, fb, param_roles={1: "LHS", 2: "RHS"})
     iters = sorted((_pos(b, bi), roles.of_operand(t["args"][0], bi)) for bi, t in b.calls() if callee_name(t["f"], fb) == "core::iter::traits::collect::IntoIterator::into_iter")
-    ok = len(iters) >= 2 and iters[0][1] == "Range::Range{K0,[T]::len(LHS)}" and iters[1][1] == "Range::Range{K0,[T]::len(RHS)}"
+    full = lambda r, A: r in ("Range::Range{K0,[T]::len(%s)}" % A, "ENUMERATE([T]::iter(%s))" % A, "[T]::iter(%s)" % A)
+    ok = len(iters) >= 2 and full(iters[0][1], "LHS") and full(iters[1][1], "RHS")
     R.check(ok, "mult_core:ranges", "mult_core: every pair (i, j) of digits is visited: %s" % [x[1][:60] for x in iters], b.span)
     vlen = roles.of_origin(L.Vinit[1])
     R.check(vlen in ("(([T]::len(LHS) Add [T]::len(RHS)) Add K1)", "([T]::len(LHS) Add [T]::len(RHS))"), "mult_core:length", "mult_core: the accumulator has at least len(lhs)+len(rhs) cells: %s" % vlen, b.span)
